@@ -18,6 +18,7 @@ use radix_engine_interface::object_modules::role_assignment::*;
 use radix_engine_interface::object_modules::royalty::*;
 use radix_engine_interface::prelude::*;
 use radix_blueprint_schema_init::*;
+use sbor::basic_well_known_types::ANY_TYPE;
 use std::cell::RefCell;
 
 pub const CODE_ID: u64 = 7001;
@@ -309,7 +310,7 @@ fn enc_key(key: &[u8]) -> Vec<u8> {
 }
 
 impl Interp {
-    fn resolve(&self, t: &Tgt) -> Option<NodeId> {
+    fn node_of(&self, t: &Tgt) -> Option<NodeId> {
         match t {
             Tgt::Slot(s) => self.slots.get(s).map(|x| x.node),
             Tgt::Raw(b) => raw_node(b),
@@ -362,7 +363,7 @@ impl Interp {
         let mut out = Out::new();
         macro_rules! tgt {
             ($t:expr) => {{
-                match self.resolve($t) {
+                match self.node_of($t) {
                     Some(n) => {
                         out.target = Some(n);
                         n
